@@ -518,12 +518,14 @@ fn run_group(rng: &mut Rng, stream: bool, id: &str, prof: &Profile) {
     let mut cur_w = 1usize;
     let mut polls = 0usize;
     let mut poisoned = false;
-    let nops = 6 + rng.below(if prof.is("big") { 60 } else { 22 });
+    let nops = 6 + rng.below(if prof.is("big") || prof.is("refill") { 60 } else { 22 });
+    let mut fill_left = if prof.is("refill") { 1 + rng.below(3) } else { 0 };
+    let mut last_o = String::new();
     let ck = if stream { ChildKind::Stream } else { ChildKind::Fut };
     let panic_child: Option<usize> = if rng.chance(if prof.is("panic") { 50 } else { 5 }) { Some(rng.below(4)) } else { None };
     let mut new_child = |rng: &mut Rng, block: &mut Block, key_of: &mut Vec<Option<usize>>| -> usize {
         let c = key_of.len();
-        let mut s = gen_script(rng, ck, c, c + 2, false, prof);
+        let mut s = gen_script(rng, ck, c, c + 2, prof.is("refill"), prof);
         if Some(c) == panic_child {
             let mut v = vec![s];
             inject_panic(rng, &mut v, 100);
@@ -561,7 +563,26 @@ fn run_group(rng: &mut Rng, stream: bool, id: &str, prof: &Profile) {
             break;
         }
         let grp = g.as_mut().unwrap();
-        let r = rng.below(100);
+        // profile `refill`: fill the group, drive it until it reports None (polls follow wake-ups),
+        // refill (the new members land in reused slots), and so on
+        let r = if prof.is("refill") {
+            if fill_left > 0 {
+                fill_left -= 1;
+                0
+            } else if last_o == "N" {
+                last_o.clear();
+                fill_left = rng.below(3);
+                0
+            } else if rng.chance(6) {
+                rng.below(100)
+            } else if rng.chance(50) {
+                30
+            } else {
+                60
+            }
+        } else {
+            rng.below(100)
+        };
         if r < 22 || inserts == 0 {
             let c = new_child(rng, &mut block, &mut key_of);
             block.ops.push(format!("i {c}"));
@@ -586,13 +607,15 @@ fn run_group(rng: &mut Rng, stream: bool, id: &str, prof: &Profile) {
             block.ops.push(format!("p {cur_w}"));
             let from = CTX.with(|c| c.borrow().log.len());
             let o = do_poll(&mut |cx| grp.poll(cx), cur_w);
+            last_o = o.clone();
             polls += 1;
             settle(from, &mut mirror, &mut key_of);
             if o == "X" {
                 poisoned = true;
             }
         } else if r < 72 {
-            let c = rng.below(key_of.len());
+            let live: Vec<usize> = (0..key_of.len()).filter(|c| key_of[*c].is_some()).collect();
+            let c = if prof.is("refill") && !live.is_empty() && rng.chance(85) { *rng.pick(&live) } else { rng.below(key_of.len()) };
             let age = if rng.chance(75) { 0 } else { rng.below(3) };
             block.ops.push(format!("f {c} {age}"));
             fire(c, age);
